@@ -183,11 +183,6 @@ ldb_set_current_file(const char *dbname, uint64_t desc_number) {
   if (rc == LDB_OK)
     rc = ldb_rename_file(tmp, cur);
 
-  /* Make the switch durable before the caller deletes anything
-     (e.g. a replayed log) that only the old MANIFEST accounts for. */
-  if (rc == LDB_OK)
-    rc = ldb_sync_dir(dbname);
-
   if (rc != LDB_OK)
     ldb_remove_file(tmp);
 
